@@ -1039,3 +1039,76 @@ Proof.
     + pose proof (cfg_poll_send f w x s2) as (_ & _ & T). destruct (poll_send f w x s2) as [s3 r]. cbn [fst ret] in *.
       destruct T as (_ & T & _). destruct (t03f (tn s3)) eqn:E3; [reflexivity|]. specialize (T eq_refl). discriminate.
 Qed.
+
+(** * statements over all histories (pinned in Props/C0x_mpmcb.v) *)
+Section Pinned.
+  Variables (c : N) (a : bool) (f : fixes) (os : list op).
+  Let s := state_after c a f os.
+
+  Lemma Hinv : Inv s.
+  Proof. apply Inv_reachable. Qed.
+
+  (* C03: try_send succeeds exactly when the handle is open, a receiver is counted, and there is room *)
+  Lemma P_try_send_exact h x :
+    getH h s = Some x -> h_live x = true -> h_tx x = true ->
+    (o_res (snd (step s (TrySend h))) = ROk <->
+     h_closed x = false /\ rc s <> 0 /\ (length (q s) < N.to_nat c)%nat).
+  Proof.
+    intros Hg Hl Htx. pose proof (try_send_spec s h Hinv x Hg Hl Htx (fun E => match Bool.diff_false_true E with end)) as P.
+    assert (Ec : cap s = c) by apply cap_after. rewrite Ec in P.
+    split.
+    - intros E. rewrite E in P. tauto.
+    - intros (A & B & C). destruct (o_res (snd (step s (TrySend h)))); try contradiction; try reflexivity.
+      + destruct P as (_ & _ & _ & _ & P & _). lia.
+      + destruct P as (_ & _ & [P|P] & _); congruence.
+      + destruct P as (P & _). discriminate.
+      + destruct P as (P & _). discriminate.
+  Qed.
+
+  (* C04: counts = open handles, unless F-07 *)
+  Lemma P_counts : t07 (tn s) = false ->
+    sc s = N.of_nat (cnt open_tx (hs s)) /\ rc s = N.of_nat (cnt open_rx (hs s)).
+  Proof. intros T. apply (k_cnt s (proj2 (proj2 Hinv)) T). Qed.
+
+  Lemma P_taint_ok : taint_ok f (tn s).
+  Proof. pose proof (w_taint s (proj1 (proj2 Hinv))) as T. unfold s in T at 1. rewrite fx_after in T. exact T. Qed.
+
+  (* C04: a poll that reports Disconnected on an open handle has drained the buffer, unless F-08 *)
+  Lemma P_poll_disc fid w x :
+    getF fid s = Some x -> f_live x = true -> f_done x = false -> f_recv x = true ->
+    handle_closed (f_h x) s = false ->
+    o_res (snd (step s (Poll fid w))) = RReadyDisc ->
+    q s = [] \/ (fx08 f = false /\ t08 (tn (fst (step s (Poll fid w)))) = true).
+  Proof.
+    intros Hg Hl Hd Hrv Hc. unfold step. set (s1 := with_bad false (with_dk [] (with_wk [] s))).
+    change (getF fid s1) with (getF fid s). rewrite Hg.
+    change (handle_closed (f_h x) s1) with (handle_closed (f_h x) s).
+    rewrite Hl, Hd, Hc, Hrv. cbn [negb andb]. unfold taint.
+    pose proof (poll_recv_out fid w x s1) as P. cbv zeta in P.
+    destruct (poll_recv fid w x s1) as [s2 r]. cbn [fst snd ret o_res] in *. intros ->.
+    destruct P as (_ & _ & [[P _]|[P1 P2]]); [left; exact P|].
+    destruct (q s) eqn:E; [left; reflexivity|]. right.
+    change (fx s1) with (fx s) in P1. unfold s in P1 at 1. rewrite fx_after in P1. split; [exact P1|].
+    apply P2. change (q s1) with (q s). rewrite E. discriminate.
+  Qed.
+
+  (* C06: after drop(future) the future is gone and, by no_dangling, so is its registration *)
+  Lemma P_dropf_unlinked fid x :
+    getF fid s = Some x -> f_live x = true ->
+    let s' := fst (step s (DropF fid)) in
+    ~ In fid (akeys (asq s')) /\ (t06 (tn s') = false -> ~ In fid (akeys (arq s'))).
+  Proof.
+    intros Hg Hl. cbv zeta.
+    assert (Hdead : exists y, getF fid (fst (step s (DropF fid))) = Some y /\ f_live y = false).
+    { unfold step. set (s1 := with_bad false (with_dk [] (with_wk [] s))).
+      change (getF fid s1) with (getF fid s). rewrite Hg, Hl. cbn [negb ret fst].
+      destruct (getF fid (cancel_reg fid x s1)) as [y|];
+        destruct (f_item x); unfold destroy; st_simpl;
+        (eexists; split; [change (aget fid (aset fid ?X ?L)) with (aget fid (aset fid X L)); apply aget_aset_same | reflexivity]). }
+    destruct Hdead as [y [Hy Hly]].
+    pose proof (Inv_step s (DropF fid) Hinv) as H'. destruct (Inv_no_dangling _ H') as [A B].
+    split.
+    - intros Hi. destruct (akeys_In _ _ Hi) as [w Hw]. destruct (A fid w Hw) as [z [Hz [Hlz _]]]. congruence.
+    - intros T Hi. destruct (akeys_In _ _ Hi) as [w Hw]. destruct (B T fid w Hw) as [z [Hz [Hlz _]]]. congruence.
+  Qed.
+End Pinned.
